@@ -356,3 +356,349 @@ Proof.
   intros W Hq. cbn zeta. destruct (restart_index_equiv n ops (p_init n) (vs_init n) (prel_init n) W) as [_ Hc _ Ic _ _ _ _ _].
   rewrite Hc. intros Ha Hb. apply (fc_eq_spec n _ Ic ws q a b ea eb Hq Ha Hb).
 Qed.
+
+(* ====================== Round 4: the composed engine ====================== *)
+Lemma fc_as_fc_on ws q s a b : fc ws q s a b =
+  match alookup a (hb s), alookup b (la s), alookup b (ebr s) with
+  | Some av, Some bv, Some bbr => fc_on ws q s av bv bbr | _, _, _ => false end.
+Proof. reflexivity. Qed.
+Lemma merged_as_merged_on s a : merged s a = match alookup a (hb s) with Some av => merged_on s av | None => [] end.
+Proof. reflexivity. Qed.
+Lemma alookup_dec_tbl {A} (dec : list N -> A) t k : alookup k (dec_tbl dec t) = option_map dec (alookup k t).
+Proof. induction t as [|[k' b] t IH]; cbn [dec_tbl map alookup fst snd]; [reflexivity|]. destruct (k =? k'); [reflexivity|exact IH]. Qed.
+Lemma fc_on_shape ws q p av bv bbr : fc_on ws q (p_shape p) av bv bbr = fc_on ws q (p_view p) av bv bbr.
+Proof. reflexivity. Qed.
+Lemma merged_on_shape p av : merged_on (p_shape p) av = merged_on (p_view p) av.
+Proof. reflexivity. Qed.
+Lemma p_view_initbi p : p_view (p_initbi p) = p_view p.
+Proof. unfold p_view, p_binfo, p_initbi. cbn [p_bi p_n p_cur p_evs]. reflexivity. Qed.
+
+(* ---------- vector lengths (the LRU weights are byte lengths and must not wrap) ---------- *)
+Definition lenb (s : vidx) : Prop :=
+  (forall k v, In (k, v) (hb s) -> (length v <= nbr s)%nat) /\ (forall k v, In (k, v) (la s) -> (length v <= nbr s)%nat).
+Lemma hb_set_len v i x K : (length v <= K)%nat -> (i < K)%nat -> (length (hb_set v i x) <= K)%nat.
+Proof. intros. unfold hb_set. rewrite set_nth_length. lia. Qed.
+Lemma collect_from_len num mine his K : (length mine <= K)%nat -> (num <= K)%nat -> (length (collect_from num mine his) <= K)%nat.
+Proof.
+  intros Hm Hn. unfold collect_from.
+  assert (Hl : forall b, In b (List.seq 0 num) -> (b < K)%nat) by (intros b Hb; apply in_seq in Hb; lia).
+  revert Hm Hl. generalize mine (List.seq 0 num). clear mine. intros mine l. revert mine.
+  induction l as [|b l IH]; intros mine Hm Hl; cbn [fold_left]; [exact Hm|]. apply IH; [|intros; apply Hl; right; assumption].
+  assert (Hb : (b < K)%nat) by (apply Hl; left; reflexivity).
+  destruct ((fst (hb_get his b) =? 0) && negb (is_fork (hb_get his b))); [exact Hm|].
+  destruct (is_fork (hb_get mine b)); [exact Hm|].
+  destruct (is_fork (hb_get his b)); [apply hb_set_len; assumption|]. cbv zeta.
+  match goal with |- (length (if ?c then _ else _) <= _)%nat => destruct c; [apply hb_set_len; assumption|exact Hm] end.
+Qed.
+Lemma set_fork_creator_len s v c K : (length v <= K)%nat -> (forall b, In b (nth c (by_cr s) []) -> (b < K)%nat) ->
+  (length (set_fork_creator s v c) <= K)%nat.
+Proof.
+  unfold set_fork_creator. generalize (nth c (by_cr s) []). intros l. revert v.
+  induction l as [|b l IH]; intros v Hv Hl; cbn [fold_left]; [exact Hv|]. apply IH; [|intros; apply Hl; right; assumption].
+  apply hb_set_len; [exact Hv|apply Hl; left; reflexivity].
+Qed.
+Lemma detect_forks_len s v K : (length v <= K)%nat -> (forall c b, In b (nth c (by_cr s) []) -> (b < K)%nat) ->
+  (length (detect_forks s v) <= K)%nat.
+Proof.
+  intros Hv Hb. rewrite detect_forks_unfold. destruct (negb (at_least_one_fork s)); [exact Hv|].
+  assert (Hf : forall (cond : list hbs -> nat -> bool) l v0, (length v0 <= K)%nat ->
+     (length (fold_left (fun v n => if cond v n then set_fork_detected s v n else v) l v0) <= K)%nat).
+  { intros cond l. induction l as [|n l IH]; intros v0 H0; cbn [fold_left]; [exact H0|]. apply IH.
+    destruct (cond v0 n); [|exact H0]. unfold set_fork_detected. apply set_fork_creator_len; [exact H0|apply Hb]. }
+  unfold step2, step1. apply (Hf (fun v n => pass2_cond s v n)). apply (Hf (fun v n => pass1_cond s v n)). exact Hv.
+Qed.
+Lemma dfs_la_pres (P : list N -> Prop) s me sq : (forall v, P v -> P (la_set v me sq)) -> forall fuel stack lam,
+  (forall k v, In (k, v) lam -> P v) -> forall k v, In (k, v) (dfs_la fuel s me sq stack lam) -> P v.
+Proof.
+  intros HP. induction fuel as [|f IH]; intros stack lam Hl; cbn [dfs_la]; [exact Hl|].
+  destruct stack as [|w rest]; [exact Hl|].
+  destruct (alookup w lam) as [v|] eqn:Hw; [|apply IH; exact Hl].
+  destruct (negb (la_get v me =? 0)); [apply IH; exact Hl|].
+  assert (Hl' : forall k v0, In (k, v0) (aput w (la_set v me sq) lam) -> P v0).
+  { intros k v0 [[= <- <-]|Hin]; [|eauto]. apply HP. apply alookup_In in Hw. eauto. }
+  destruct (alookup w (evs s)); apply IH; exact Hl'.
+Qed.
+Lemma dfs_la_prefix s me sq : forall fuel stack lam, exists pre, dfs_la fuel s me sq stack lam = pre ++ lam.
+Proof.
+  induction fuel as [|f IH]; intros stack lam; cbn [dfs_la]; [exists []; reflexivity|].
+  destruct stack as [|w rest]; [exists []; reflexivity|].
+  destruct (alookup w lam) as [v|]; [|apply IH].
+  destruct (negb (la_get v me =? 0)); [apply IH|].
+  assert (H : forall st, exists pre, dfs_la f s me sq st (aput w (la_set v me sq) lam) = pre ++ lam).
+  { intros st. destruct (IH st (aput w (la_set v me sq) lam)) as [pre Hp]. exists (pre ++ [(w, la_set v me sq)]).
+    rewrite Hp. unfold aput. rewrite <- app_assoc. reflexivity. }
+  destruct (alookup w (evs s)); apply H.
+Qed.
+
+(* shape of the state produced by a successful Add *)
+Lemma add_shape n s e : vinv n s -> wf_new n s e -> lenb s ->
+  exists s' hv pre me, VecIndex.add s e = Some s' /\
+    hb s' = (eid e, hv) :: hb s /\ la s' = pre ++ la s /\ ebr s' = (eid e, me) :: ebr s /\
+    evs s' = (eid e, e) :: evs s /\ (nbr s' <= S (nbr s))%nat /\ lenb s'.
+Proof.
+  intros I W (L1 & L2).
+  pose proof (fill_branch_ok n s e (v_g n s I) W) as F.
+  set (me := fst (fill_branch s e)) in *. set (s1 := snd (fill_branch s e)) in *.
+  assert (Hpar : forall p, In p (epar e) -> alookup p (hb s1) <> None).
+  { intros p Hp. rewrite (fb_hb _ _ _ _ _ F). destruct W as (_ & _ & _ & Hpar & _).
+    destruct (Hpar p Hp) as [ep Ep]. destruct (v_keys n s I p ep Ep) as ((hv & Hhv) & _). congruence. }
+  pose proof (add_eq s e Hpar) as Hadd. fold me s1 in Hadd.
+  destruct (dfs_la_prefix s1 me (eseq e) (dfs_fuel s1 e) (rev (epar e)) (la s1)) as [pre Hpre].
+  assert (Hn1 : (nbr s1 <= S (nbr s))%nat).
+  { destruct (fill_branch_cases s e) as [(b & Hfb & _)|Hfb]; unfold s1; rewrite Hfb; cbn [snd].
+    - unfold nbr. cbn [s_cont br_cr]. lia.
+    - unfold nbr. cbn [s_fork br_cr]. rewrite app_length. cbn [length]. lia. }
+  pose proof (fb_nbr _ _ _ _ _ F) as Hn0. pose proof (fb_me _ _ _ _ _ F) as Hme.
+  assert (Hby : forall c b, In b (nth c (by_cr s1) []) -> (b < nbr s1)%nat).
+  { intros c b Hb. destruct (fb_sinv _ _ _ _ _ F) as (_ & _ & _ & _ & _ & A6 & A7 & _).
+    destruct (Nat.lt_ge_cases c n) as [Hc|Hc]; [apply (A7 c b Hc) in Hb; apply Hb|].
+    rewrite nth_overflow in Hb by lia. destruct Hb. }
+  exists (mk_add s1 e me (nbr s)), (new_before s1 e me (nbr s)), ((eid e, la_set (repeat 0 (nbr s)) me (eseq e)) :: pre), me.
+  split; [exact Hadd|]. cbn [mk_add hb la ebr evs]. rewrite (fb_hb _ _ _ _ _ F), (fb_ebr _ _ _ _ _ F), (fb_evs _ _ _ _ _ F).
+  split; [reflexivity|]. split; [unfold new_lam; rewrite Hpre, (fb_la _ _ _ _ _ F); reflexivity|].
+  split; [reflexivity|]. split; [reflexivity|]. change (nbr (mk_add s1 e me (nbr s))) with (nbr s1). split; [exact Hn1|].
+  unfold lenb. cbn [mk_add hb la]. change (nbr (mk_add s1 e me (nbr s))) with (nbr s1).
+  split.
+  - intros k v [[= <- <-]|Hin]; [|rewrite (fb_hb _ _ _ _ _ F) in Hin; specialize (L1 k v Hin); lia].
+    unfold new_before, new_before1. apply detect_forks_len; [|exact Hby].
+    assert (H0 : (length (hb_set (repeat (0%N, 0%N) (nbr s)) me (eseq e, eseq e)) <= nbr s1)%nat)
+      by (apply hb_set_len; [rewrite repeat_length; lia|exact Hme]).
+    revert H0. generalize (hb_set (repeat (0%N, 0%N) (nbr s)) me (eseq e, eseq e)). generalize (map (hbv s1) (epar e)).
+    intros l. induction l as [|p l IH]; intros acc Hacc; cbn [fold_left]; [exact Hacc|]. apply IH.
+    apply collect_from_len; [exact Hacc|lia].
+  - intros k v [[= <- <-]|Hin].
+    + unfold la_set. rewrite set_nth_length, repeat_length. lia.
+    + unfold new_lam in Hin.
+      apply (dfs_la_pres (fun v => (length v <= nbr s1)%nat) s1 me (eseq e)) with (fuel := dfs_fuel s1 e) (stack := rev (epar e)) (lam := la s1) (k := k); [| |exact Hin].
+      * intros v0 H0. unfold la_set. rewrite set_nth_length. lia.
+      * rewrite (fb_la _ _ _ _ _ F). intros k0 v0 H0. specialize (L2 k0 v0 H0). lia.
+Qed.
+
+Lemma t_sets_cur enc l t : t_cur (t_sets enc l t) = rev (map (fun kv => (fst kv, enc (snd kv))) l) ++ t_cur t.
+Proof.
+  revert t; induction l as [|kv l IH]; intros t; cbn [t_sets fold_left map rev]; [reflexivity|].
+  fold (t_sets enc l (t_set (fst kv) (enc (snd kv)) t)). rewrite IH. cbn [t_set t_cur]. unfold aput.
+  rewrite <- app_assoc. reflexivity.
+Qed.
+Lemma t_sets_fl enc l t : t_fl (t_sets enc l t) = t_fl t.
+Proof. revert t; induction l as [|kv l IH]; intros t; cbn [t_sets fold_left]; [reflexivity|]. fold (t_sets enc l (t_set (fst kv) (enc (snd kv)) t)). rewrite IH. reflexivity. Qed.
+Lemma t_sets_coh enc l t : coh t -> (forall kv, In kv l -> small (blen (enc (snd kv)))) -> coh (t_sets enc l t).
+Proof.
+  revert t; induction l as [|kv l IH]; intros t C Hs; cbn [t_sets fold_left]; [exact C|].
+  fold (t_sets enc l (t_set (fst kv) (enc (snd kv)) t)). apply IH; [|intros; apply Hs; right; assumption].
+  apply t_set_coh; [exact C|apply Hs; left; reflexivity].
+Qed.
+Lemma small_len8 (v : list hbs) K : (length v <= K)%nat -> N.of_nat (S K) < U32 -> small (blen (enc_hb v)).
+Proof. intros H HK. unfold small, blen. rewrite enc_hb_length. unfold U32 in HK. lia. Qed.
+Lemma small_len4 (v : list N) K : (length v <= K)%nat -> N.of_nat (S K) < U32 -> small (blen (enc_la v)).
+Proof. intros H HK. unfold small, blen. rewrite enc_la_length. unfold U32 in HK. lia. Qed.
+
+(* ---------- the invariant of the composed engine ---------- *)
+Definition cinv ws q n U (st : ceng * list cout) : Prop :=
+  let '(ce, out) := st in
+  exists vs, prel n (ce_p ce) vs /\ hst_ok ws q n U (vs, ce_fc ce, out) /\
+    coh (ce_hb_t ce) /\ coh (ce_la_t ce) /\ lenb (vs_cur vs) /\ lenb (vs_flushed vs) /\
+    (ce_dirty ce = false -> p_cur (ce_p ce) = p_db (ce_p ce) /\ p_evs (ce_p ce) = p_evs_fl (ce_p ce)).
+Definition cop_ok (n : nat) U (ce : ceng) (o : cop) : Prop :=
+  match o with
+  | CAdd e => wf_ev n (evs (ce_view ce)) e /\ alookup (eid e) U = Some e /\ eseq e < U32 /\ N.of_nat (S (S (nbr (ce_view ce)))) < U32
+  | CQuery a b => (exists ea, alookup a (evs (ce_view ce)) = Some ea) /\ (exists eb, alookup b (evs (ce_view ce)) = Some eb)
+  | CRestart _ mw ms => small mw /\ z_neg ms = false
+  | _ => True end.
+
+Lemma coh_tables t t' : coh t -> t_cur t' = t_cur t -> t_fl t' = t_fl t -> t_c t' = t_c t -> coh t'.
+Proof. intros (I & A & B & C) H1 H2 H3. unfold coh. rewrite H1, H2, H3. auto. Qed.
+Lemma coh_purge t : coh t -> coh {| t_fl := t_fl t; t_cur := t_fl t; t_c := fst (Wlru.purge (t_c t)) |}.
+Proof.
+  intros (I & A & B & C). unfold coh. cbn [t_c t_cur t_fl Wlru.purge fst c_entries].
+  split; [eapply purge_inv; [exact I|unfold Wlru.purge; reflexivity]|]. split; [intros e []|auto].
+Qed.
+
+Lemma query_through_caches ws q n ce vs a b : prel n (ce_p ce) vs -> coh (ce_hb_t ce) -> coh (ce_la_t ce) ->
+  ce_fc (snd (ce_query ws q ce a b)) = snd (fc_query ws q (vs_cur vs) (ce_fc ce) a b) /\
+  fst (ce_query ws q ce a b) = fst (fc_query ws q (vs_cur vs) (ce_fc ce) a b) /\
+  p_view (ce_p (snd (ce_query ws q ce a b))) = p_view (ce_p ce) /\
+  p_db (ce_p (snd (ce_query ws q ce a b))) = p_db (ce_p ce) /\ p_cur (ce_p (snd (ce_query ws q ce a b))) = p_cur (ce_p ce) /\
+  p_evs (ce_p (snd (ce_query ws q ce a b))) = p_evs (ce_p ce) /\ p_evs_fl (ce_p (snd (ce_query ws q ce a b))) = p_evs_fl (ce_p ce) /\
+  p_n (ce_p (snd (ce_query ws q ce a b))) = p_n (ce_p ce) /\
+  (p_bi (ce_p (snd (ce_query ws q ce a b))) = None -> p_bi (ce_p ce) = None) /\
+  ce_dirty (snd (ce_query ws q ce a b)) = ce_dirty ce /\
+  coh (ce_hb_t (snd (ce_query ws q ce a b))) /\ coh (ce_la_t (snd (ce_query ws q ce a b))).
+Proof.
+  intros R Chb Cla. unfold ce_query, fc_query.
+  destruct (fcache_get (a, b) (ce_fc ce)) as [[r|] c'] eqn:Hg; cbn [fst snd ce_p ce_fc ce_dirty].
+  - repeat (split; [reflexivity|]). split; [auto|]. split; [reflexivity|]. split; assumption.
+  - destruct (t_get_transparent a (ce_hb_t ce) Chb) as (Ha & Cha & Hca & Hfa).
+    destruct (t_get a (ce_hb_t ce)) as [oa hbt] eqn:Hta. cbn [fst snd] in Ha, Cha, Hca, Hfa.
+    assert (Hlb : exists ob lat, (match oa with Some _ => t_get b (ce_la_t ce) | None => (None, ce_la_t ce) end) = (ob, lat) /\
+                   coh lat /\ t_cur lat = t_cur (ce_la_t ce) /\ t_fl lat = t_fl (ce_la_t ce) /\
+                   (oa <> None -> ob = alookup b (t_cur (ce_la_t ce)))).
+    { destruct oa.
+      - destruct (t_get_transparent b (ce_la_t ce) Cla) as (Hb & Chb' & Hcb & Hfb).
+        destruct (t_get b (ce_la_t ce)) as [ob lat]. cbn [fst snd] in *. exists ob, lat. auto.
+      - exists None, (ce_la_t ce). split; [reflexivity|]. split; [exact Cla|]. split; [reflexivity|]. split; [reflexivity|]. intros H. exfalso. apply H. reflexivity. }
+    destruct Hlb as (ob & lat & Hlat & Clat & Hcl & Hfl & Hob). rewrite Hlat. cbn [fst snd ce_p ce_fc ce_dirty].
+    assert (Hr : match oa, ob, alookup b (pd_br (p_cur (p_initbi (ce_p ce)))) with
+                 | Some ab, Some bb, Some brb => fc_on ws q (p_shape (p_initbi (ce_p ce))) (dec_hb ab) (dec_la bb) (dec_br brb)
+                 | _, _, _ => false end = fc ws q (vs_cur vs) a b).
+    { assert (Hsh : forall av bv bbr, fc_on ws q (p_shape (p_initbi (ce_p ce))) av bv bbr = fc_on ws q (p_view (p_initbi (ce_p ce))) av bv bbr) by reflexivity.
+      match goal with |- ?L = _ => assert (HL : L = match oa, ob, alookup b (pd_br (p_cur (p_initbi (ce_p ce)))) with
+                 | Some ab, Some bb, Some brb => fc_on ws q (p_view (p_initbi (ce_p ce))) (dec_hb ab) (dec_la bb) (dec_br brb)
+                 | _, _, _ => false end) by (destruct oa, ob, (alookup b (pd_br (p_cur (p_initbi (ce_p ce))))); try reflexivity; apply Hsh) end.
+      rewrite HL. clear HL Hsh.
+      rewrite p_view_initbi, fc_as_fc_on, <- (pr_cur n _ _ R). unfold p_view at 2 3 4. cbn [hb la ebr].
+      rewrite !alookup_dec_tbl. cbn [p_initbi p_cur]. cbn [ce_hb_t t_cur] in Ha. rewrite <- Ha.
+      destruct oa as [ab|]; cbn [option_map]; [|reflexivity].
+      rewrite (Hob ltac:(discriminate)). cbn [ce_la_t t_cur].
+      destruct (alookup b (pd_la (p_cur (ce_p ce)))) as [bb|]; cbn [option_map]; [|reflexivity].
+      destruct (alookup b (pd_br (p_cur (ce_p ce)))) as [brb|]; cbn [option_map]; reflexivity. }
+    rewrite Hr. split; [reflexivity|]. split; [reflexivity|]. split; [apply p_view_initbi|].
+    cbn [p_initbi p_db p_cur p_evs p_evs_fl p_n p_bi]. repeat (split; [reflexivity|]).
+    split; [discriminate|]. split; [reflexivity|]. split.
+    + eapply coh_tables; [exact Cha|..]; cbn [ce_hb_t t_cur t_fl t_c ce_p ce_hbc p_initbi p_cur p_db]; auto.
+    + eapply coh_tables; [exact Clat|..]; cbn [ce_la_t t_cur t_fl t_c ce_p ce_lac p_initbi p_cur p_db]; auto.
+Qed.
+
+Lemma firstn_app_exact {A} (a b : list A) : firstn (length (a ++ b) - length b) (a ++ b) = a.
+Proof. rewrite app_length. replace (length a + length b - length b)%nat with (length a) by lia. rewrite firstn_app, Nat.sub_diag, firstn_O, app_nil_r. apply firstn_all. Qed.
+Lemma dec_tbl_app {A} (dec : list N -> A) t1 t2 : dec_tbl dec (t1 ++ t2) = dec_tbl dec t1 ++ dec_tbl dec t2.
+Proof. apply map_app. Qed.
+Lemma dec_tbl_length {A} (dec : list N -> A) t : length (dec_tbl dec t) = length t.
+Proof. apply map_length. Qed.
+
+Lemma hst_ok_new_cache ws q n U vs c out cap : hst_ok ws q n U (vs, c, out) -> hst_ok ws q n U (vs, fcache_new cap, out).
+Proof. intros (A & B & C & D & _ & F). unfold hst_ok. repeat (split; [assumption|]). split; [intros k r []|exact F]. Qed.
+
+Theorem cstep_ok ws q n U st o : 0 < q -> cinv ws q n U st -> cop_ok n U (fst st) o -> cinv ws q n U (cstep ws q st o).
+Proof.
+  intros Hq. destruct st as [ce out]. intros (vs & R & H & Chb & Cla & Lc & Lf & Hd) Hok. cbn [fst] in Hok.
+  pose proof (pr_cur n _ _ R) as Hcur. unfold ce_view in Hok.
+  destruct o as [e|a b| | |cap mw ms]; cbn [cstep cop_ok] in *; unfold ce_view in *.
+  - (* Add, written key by key through the caches *)
+    destruct Hok as (We & HU & Hs & Hnb). rewrite Hcur in We, Hnb.
+    pose proof (pr_icur n _ _ R) as Ic.
+    destruct (add_shape n (vs_cur vs) e Ic We Lc) as (s' & hv & pre & me & Hadd & Hhb & Hla & Hbr & Hevs & Hnbr & Ls').
+    destruct (add_preserves n (vs_cur vs) e Ic We) as (s1 & Hadd1 & I1 & _). rewrite Hadd in Hadd1. injection Hadd1 as <-.
+    assert (B1 : vbounded s') by (apply (add_bounded n (vs_cur vs) e s' Ic We Hadd (pr_bcur n _ _ R) Hs); lia).
+    unfold ce_add. rewrite Hcur, Hadd, Hhb, Hbr. cbn [snd].
+    assert (Hnew : la_new (vs_cur vs) s' = rev pre).
+    { unfold la_new. rewrite Hla, firstn_app_exact. reflexivity. }
+    rewrite Hnew.
+    set (hbt := t_set (eid e) (enc_hb hv) (ce_hb_t ce)).
+    set (lat := t_sets enc_la (rev pre) (ce_la_t ce)).
+    assert (Hlat : t_cur lat = map (fun kv => (fst kv, enc_la (snd kv))) pre ++ pd_la (p_cur (ce_p ce))).
+    { unfold lat. rewrite t_sets_cur, map_rev, rev_involutive. reflexivity. }
+    destruct B1 as (Bh & Bl & Bb).
+    exists (snd (vs_add vs e)). unfold vs_add. rewrite Hadd. cbn [snd].
+    assert (Hhbs : hb (vs_cur vs) = dec_tbl dec_hb (pd_hb (p_cur (ce_p ce)))) by (rewrite <- Hcur; reflexivity).
+    assert (Hlas : la (vs_cur vs) = dec_tbl dec_la (pd_la (p_cur (ce_p ce)))) by (rewrite <- Hcur; reflexivity).
+    assert (Hbrs : ebr (vs_cur vs) = dec_tbl dec_br (pd_br (p_cur (ce_p ce)))) by (rewrite <- Hcur; reflexivity).
+    split; [|split; [|split; [|split; [|split; [exact Ls'|split; [exact Lf|discriminate]]]]]].
+    + (* the view of the new byte tables is the new abstract state *)
+      destruct R as [Rn _ Rfl _ Rif Rbc Rbf Rbi _].
+      constructor; cbn [ce_p p_n p_bi p_db p_evs_fl p_cur p_evs vs_cur vs_flushed pd_bi]; auto; [|repeat split; assumption|discriminate].
+      unfold p_view, p_binfo. cbn [p_bi p_n p_cur p_evs pd_hb pd_la pd_br bi_of bi_last bi_cr bi_by].
+      unfold hbt. cbn [t_set t_cur ce_hb_t]. rewrite Hlat.
+      unfold aput. cbn [dec_tbl map fst snd]. fold (dec_tbl dec_hb (pd_hb (p_cur (ce_p ce)))). fold (dec_tbl dec_br (pd_br (p_cur (ce_p ce)))).
+      rewrite dec_tbl_app. rewrite <- Hhbs, <- Hlas, <- Hbrs.
+      rewrite (dec_enc_hb hv) by (apply (Bh (eid e)); rewrite Hhb; left; reflexivity).
+      rewrite (dec_enc_br me) by (apply (Bb (eid e)); rewrite Hbr; left; reflexivity).
+      assert (Hpre : dec_tbl dec_la (map (fun kv => (fst kv, enc_la (snd kv))) pre) = pre).
+      { unfold dec_tbl. rewrite map_map. rewrite <- (map_id pre) at 2. apply map_ext_in. intros [k v] Hin. cbn [fst snd].
+        rewrite dec_enc_la; [reflexivity|]. apply (Bl k). rewrite Hla. apply in_or_app. left. exact Hin. }
+      rewrite Hpre, <- Hhb, <- Hla, <- Hbr, Rn, <- (vinv_nvals n s' I1). destruct s'; reflexivity.
+    + pose proof (hstep_ok ws q n U (vs, ce_fc ce, out) (HAdd e) Hq H) as H'. cbn [hstep wf_hops] in H'.
+      unfold vs_add in H'. rewrite Hadd in H'. cbn [snd] in H'. cbn [ce_fc]. apply H'. auto.
+    + eapply coh_tables; [apply (t_set_coh (eid e) (enc_hb hv) (ce_hb_t ce) Chb)|..]; fold hbt; cbn [ce_hb_t ce_p ce_hbc p_cur p_db pd_hb t_cur t_fl t_c]; try reflexivity.
+      destruct Ls' as [Lh _]. apply (small_len8 hv (S (nbr (vs_cur vs)))); [|exact Hnb].
+      specialize (Lh (eid e) hv). rewrite Hhb in Lh. specialize (Lh (or_introl eq_refl)). lia.
+    + eapply coh_tables; [apply (t_sets_coh enc_la (rev pre) (ce_la_t ce) Cla)|..]; fold lat; cbn [ce_la_t ce_p ce_lac p_cur p_db pd_la t_cur t_fl t_c]; try reflexivity.
+      * intros [k v] Hin. cbn [snd]. apply in_rev in Hin. destruct Ls' as [_ Ll].
+        apply (small_len4 v (S (nbr (vs_cur vs)))); [|exact Hnb].
+        specialize (Ll k v). rewrite Hla in Ll. specialize (Ll (in_or_app _ _ _ (or_introl Hin))). lia.
+      * unfold lat. rewrite t_sets_fl. reflexivity.
+  - (* cached query: the vectors come through t_get *)
+    destruct Hok as (Ha & Hb). rewrite Hcur in Ha, Hb.
+    destruct (query_through_caches ws q n ce vs a b R Chb Cla) as (Q1 & Q2 & Q3 & Q4 & Q5 & Q6 & Q7 & Q8 & Q9 & Q10 & Q11 & Q12).
+    destruct (ce_query ws q ce a b) as [r ce'] eqn:Hqr. cbn [fst snd] in *.
+    exists vs. split; [|split; [|split; [exact Q11|split; [exact Q12|split; [exact Lc|split; [exact Lf|]]]]]].
+    + destruct R as [Rn Rcur Rfl Ric Rif Rbc Rbf Rbi Rnil].
+      constructor.
+      * rewrite Q8. exact Rn.
+      * rewrite Q3. exact Rcur.
+      * rewrite Q7, Q4. exact Rfl.
+      * exact Ric.
+      * exact Rif.
+      * exact Rbc.
+      * exact Rbf.
+      * rewrite Q5, Q4. exact Rbi.
+      * intros Hnone. rewrite Q5, Q4, Q6, Q7. apply Rnil. apply Q9. exact Hnone.
+    + pose proof (hstep_ok ws q n U (vs, ce_fc ce, out) (HQuery a b) Hq H) as H'. cbn [hstep wf_hops] in H'.
+      destruct (fc_query ws q (vs_cur vs) (ce_fc ce) a b) as [r0 c0]. cbn [fst snd] in *. subst r0 c0.
+      rewrite Hcur. apply H'. auto.
+    + rewrite Q10, Q5, Q4, Q6, Q7. exact Hd.
+  - (* Flush *)
+    exists (vs_flush vs). split; [apply (p_step_sim n (ce_p ce) vs PFlush R I)|].
+    split; [apply (hstep_ok ws q n U (vs, ce_fc ce, out) HFlush Hq H); exact I|].
+    destruct Chb as (I1 & A1 & B1 & C1). destruct Cla as (I2 & A2 & B2 & C2).
+    unfold coh, ce_flush, ce_hb_t, ce_la_t, p_flush. cbn [ce_p ce_hbc ce_lac ce_dirty p_db p_cur p_evs p_evs_fl pd_hb pd_la t_fl t_cur t_c vs_flush vs_cur vs_flushed].
+    cbn [ce_hb_t ce_la_t t_cur t_fl t_c] in *. repeat (split; auto).
+  - (* DropNotFlushed: vectors caches purged iff something was unflushed; the FC cache stays *)
+    exists (vs_drop vs). split; [apply (p_step_sim n (ce_p ce) vs PDrop R I)|].
+    split; [apply (hstep_ok ws q n U (vs, ce_fc ce, out) HDrop Hq H); exact I|].
+    unfold ce_drop. cbn [ce_p ce_hbc ce_lac ce_dirty vs_drop vs_cur vs_flushed].
+    destruct (ce_dirty ce) eqn:Hdirty.
+    + split; [apply (coh_purge (ce_hb_t ce) Chb)|]. split; [apply (coh_purge (ce_la_t ce) Cla)|]. auto.
+    + destruct (Hd eq_refl) as [Hcd Hev].
+      split; [eapply coh_tables; [exact Chb|..]; cbn [ce_hb_t ce_p p_drop p_cur p_db t_cur t_fl t_c ce_hbc]; rewrite ?Hcd; reflexivity|].
+      split; [eapply coh_tables; [exact Cla|..]; cbn [ce_la_t ce_p p_drop p_cur p_db t_cur t_fl t_c ce_lac]; rewrite ?Hcd; reflexivity|]. auto.
+  - (* restart: a new Index object, all three caches new *)
+    destruct Hok as [Hmw Hms]. unfold Wlru.new. rewrite Hms.
+    exists (vs_drop vs). split; [apply (p_step_sim n (ce_p ce) vs PRestart R I)|].
+    split; [apply (hst_ok_new_cache ws q n U (vs_drop vs) (ce_fc ce) out cap);
+            apply (hstep_ok ws q n U (vs, ce_fc ce, out) HDrop Hq H); exact I|].
+    assert (Hinv0 : @WlruProofs.inv N (list N) (mkCache [] 0 mw (z_to_N ms) false))
+      by (apply (new_inv mw ms); [exact Hmw|unfold Wlru.new; rewrite Hms; reflexivity]).
+    destruct Chb as (_ & _ & _ & C1). destruct Cla as (_ & _ & _ & C2).
+    unfold ce_restart. cbn [ce_p ce_hbc ce_lac ce_dirty vs_drop vs_cur vs_flushed].
+    split; [unfold coh, ce_hb_t; cbn [ce_p ce_hbc p_restart p_cur p_db t_cur t_fl t_c c_entries]; split; [exact Hinv0|split; [intros e' []|split; exact C1]]|].
+    split; [unfold coh, ce_la_t; cbn [ce_p ce_lac p_restart p_cur p_db t_cur t_fl t_c c_entries]; split; [exact Hinv0|split; [intros e' []|split; exact C2]]|].
+    auto.
+Qed.
+
+Fixpoint cops_ok ws q (n : nat) U (st : ceng * list cout) (ops : list cop) : Prop :=
+  match ops with [] => True | o :: r => cop_ok n U (fst st) o /\ cops_ok ws q n U (cstep ws q st o) r end.
+Lemma cinv_new ws q n U cap mw ms c0 : small mw -> Wlru.new mw ms = Some c0 -> cinv ws q n U (ce_new n cap c0 c0, []).
+Proof.
+  intros Hmw Hnew. exists (vs_init n). split; [apply prel_init|].
+  split.
+  { unfold hst_ok. cbn [vs_init vs_flushed vs_cur ce_new ce_fc fcache_new fc_items].
+    split; [apply vinv_init|]. split; [apply vinv_init|]. split; [intros x ex Hx; discriminate Hx|].
+    split; [intros x ex Hx; discriminate Hx|]. split; [intros k r []|intros a b r E []]. }
+  pose proof (coh_new mw ms c0 Hmw Hnew) as C.
+  split; [exact C|]. split; [exact C|]. split; [split; intros k v []|]. split; [split; intros k v []|]. auto.
+Qed.
+
+(* ONE history theorem over the composed engine: Adds written key by key through the HB/LA caches, queries
+   through the ForklessCause LRU and (on a miss) t_get, Flush, DropNotFlushed (vector caches purged iff
+   dirty, FC LRU kept) and Restart (new object: three new caches of any capacity): every answer equals the
+   specification on the view that was current when it was asked *)
+Theorem engine_history_answers ws q n U cap mw ms c0 ops : 0 < q -> small mw -> Wlru.new mw ms = Some c0 ->
+  cops_ok ws q n U (ce_new n cap c0 c0, []) ops ->
+  forall a b r E, In (a, b, r, E) (snd (fold_left (cstep ws q) ops (ce_new n cap c0 c0, []))) -> r = fc_spec ws q n E a b.
+Proof.
+  intros Hq Hmw Hnew W.
+  assert (Hfin : cinv ws q n U (fold_left (cstep ws q) ops (ce_new n cap c0 c0, []))).
+  { pose proof (cinv_new ws q n U cap mw ms c0 Hmw Hnew) as H0. revert H0 W.
+    generalize (ce_new n cap c0 c0, @nil cout). induction ops as [|o ops IH]; intros st H0 W; cbn [fold_left]; [exact H0|].
+    destruct W as [Wo Wr]. apply IH; [apply cstep_ok; assumption|exact Wr]. }
+  destruct (fold_left (cstep ws q) ops (ce_new n cap c0 c0, [])) as [ce out]. cbn [snd].
+  destruct Hfin as (vs & _ & (_ & _ & _ & _ & _ & Ho) & _). exact Ho.
+Qed.
+(* restart and drop are different transformers *)
+Lemma restart_differs_from_drop : exists ce cap c0, ce_fc (ce_restart cap c0 c0 ce) <> ce_fc (ce_drop ce).
+Proof.
+  exists {| ce_p := p_init 1; ce_dirty := false; ce_hbc := mkCache [] 0 0 0 false; ce_lac := mkCache [] 0 0 0 false;
+            ce_fc := {| fc_cap := 5; fc_items := [((1, 1), true)] |} |}, 5%nat, (mkCache [] 0 0 0 false).
+  cbn. discriminate.
+Qed.
